@@ -48,7 +48,10 @@ func (fr *frame) call(instr *ssa.Call, c *ssa.CallCommon, st *State) Value {
 			return fr.inline(callee, args, st, resT, pos)
 		}
 		fx.note("call to %s abstracted: no contract and not inlinable (result and written fields unconstrained)", name)
-		return fr.havocCall(fx.E.modset(callee), st, resT, name)
+		pre := st.Clone()
+		r := fr.havocCall(fx.E.modset(callee), st, resT, name)
+		fr.assumeFreshResults(callee, r, pre)
+		return r
 	}
 	if ext != nil {
 		if r, ok := fr.externalCall(ext, args, st, resT, pos); ok {
@@ -234,9 +237,7 @@ func (fr *frame) callContract(callee *ssa.Function, ct *Contract, args []Value, 
 				continue
 			}
 			if facetLevel[c.Facet] == fr.level {
-				if o := fr.oblige("pre", callee.Name()+"."+clauseName(c), t, pos); o != nil {
-					o.Facet = c.Facet
-				}
+				fr.obligeSplit("pre", callee.Name()+"."+clauseName(c), t, pos, c.Facet, nil)
 			}
 			fr.assume(t)
 		}
@@ -263,6 +264,7 @@ func (fr *frame) callContract(callee *ssa.Function, ct *Contract, args []Value, 
 	}
 	res = fr.freshResult(resT)
 	fx.assumeBelowBrk(res, st)
+	fr.assumeFreshResults(callee, res, pre)
 	ev2 := sub.env(st, pre, nil)
 	ev2.local = nil
 	bindResults(ev2, callee, res)
@@ -488,4 +490,31 @@ func (fr *frame) copyBuiltin(c *ssa.CallCommon, st *State, pos token.Pos) Value 
 		st.Heap[k] = nm
 	}
 	return IntV(n, tInt)
+}
+
+// assumeFreshResults: results that the provenance analysis shows to be always freshly allocated lie above the old frontier.
+func (fr *frame) assumeFreshResults(callee *ssa.Function, res Value, pre *State) {
+	fx := fr.fx
+	n := callee.Signature.Results().Len()
+	brk := fx.brkOf(pre)
+	one := func(i int, v Value) {
+		if !fx.E.returnsFresh(callee, i) {
+			return
+		}
+		switch v.Kind {
+		case KInt:
+			if _, ok := under(v.Typ).(*types.Pointer); ok {
+				fr.assume(Ge(v.T, brk))
+			}
+		case KSlice:
+			fr.assume(Or(Eq(v.T, "0"), Ge(v.T, brk)))
+		}
+	}
+	if n == 1 {
+		one(0, res)
+		return
+	}
+	for i := 0; i < n && i < len(res.Elems); i++ {
+		one(i, res.Elems[i])
+	}
 }
